@@ -67,7 +67,14 @@ RULE = (
     '36 pairs of 9 operations with <= 1 preemption; thorough: all 120 pairs '
     'of 16 with <= 1 and the 6 pairs of four small operations with <= 2; '
     'each thread must get the frame / the decoded fields it gets alone, '
-    'also afterwards.')
+    'also afterwards.  First use: 9 pairs of write/read operations on '
+    'ChatPacket, UpdateHealthPacket, PositionAndLookPacket, KeepAlivePacket '
+    '(same class twice with different values, and mixed) at protocol 757 '
+    '(thorough: also 340) are run by two threads in a FRESH FORK of a '
+    'process in which no packet was ever written or read, one fork per '
+    'schedule, all schedules with <= 1 (2) preemptions; frames and decoded '
+    'fields must be those a process gets that does the same alone (computed '
+    'in a throw-away child), also afterwards.')
 ASSUMPTIONS = [
     'the version thresholds at which the six hand-written codecs carry '
     'optional fields (MapPacket 107/364/373/452, SpawnObjectPacket '
@@ -1857,10 +1864,163 @@ def run_races(ctx, ex):
         'points': 'every source line of ' + ', '.join(RACE_MODULES)}
 
 
+# -- first use, concurrently ------------------------------------------------------
+# Every scenario above runs in a process in which each class has been used
+# before, so whatever the library builds lazily on first use is already there.
+# Here every execution is a fresh fork of a process in which NO packet has
+# ever been written or read (explore(..., cold=True)); two threads make the
+# first use of a (class, version) pair at the same time.  Expected frames
+# are computed once in a throw-away child process.
+
+COLD_OPS = {
+    'chat1': ('serverbound', 'play', 'ChatPacket', {'message': 'hello'}),
+    'chat2': ('serverbound', 'play', 'ChatPacket',
+              {'message': 'a much longer message, ' * 4}),
+    'health1': ('clientbound', 'play', 'UpdateHealthPacket',
+                {'health': 1.5, 'food': 7, 'food_saturation': 0.25}),
+    'health2': ('clientbound', 'play', 'UpdateHealthPacket',
+                {'health': 20.0, 'food': 20, 'food_saturation': 5.0}),
+    'pos': ('serverbound', 'play', 'PositionAndLookPacket',
+            {'x': 1.0, 'feet_y': 2.0, 'z': 3.0, 'yaw': 4.0, 'pitch': 5.0,
+             'on_ground': True}),
+    'ka1': ('clientbound', 'play', 'KeepAlivePacket',
+            {'keep_alive_id': 123456789}),
+    'ka2': ('clientbound', 'play', 'KeepAlivePacket', {'keep_alive_id': 7}),
+}
+COLD_PAIRS = [('chat1', 'w', 'chat2', 'w'), ('health1', 'w', 'health2', 'w'),
+              ('health1', 'w', 'health2', 'r'), ('health1', 'r', 'health2', 'r'),
+              ('ka1', 'w', 'ka2', 'w'), ('ka1', 'r', 'ka2', 'w'),
+              ('chat1', 'w', 'pos', 'w'), ('pos', 'w', 'pos', 'w'),
+              ('health1', 'w', 'ka1', 'r')]
+COLD_VERSIONS = (340, 757)
+
+
+def _cold_packet(context, name):
+    direction, state, cname, kw = COLD_OPS[name]
+    cls = _race_class(direction, state, cname)
+    return cls, cls(context=context, **kw)
+
+
+def _cold_write(context, name):
+    from minecraft.networking.packets import PacketBuffer
+    cls, p = _cold_packet(context, name)
+    buf = PacketBuffer()
+    p.write(buf)
+    return buf.get_writable().hex()
+
+
+def _cold_read(context, name, frame_hex):
+    from minecraft.networking.packets import PacketBuffer
+    direction, state, cname, kw = COLD_OPS[name]
+    cls = _race_class(direction, state, cname)
+    r = ref.Reader(bytes.fromhex(frame_hex))
+    rb = ref.Reader(r.take(r.varnum()))
+    rb.varnum()
+    pb = PacketBuffer()
+    pb.send(rb.rest())
+    pb.reset_cursor()
+    new = cls(context=context)
+    new.read(pb)
+    return _race_state(new), len(pb.read())
+
+
+def cold_expected(version):
+    """(in a throw-away child process) name -> (frame, decoded state)"""
+    use_repo()
+    from minecraft.networking.connection import ConnectionContext
+    out = {}
+    for name in sorted(COLD_OPS):
+        context = ConnectionContext(protocol_version=version)
+        frame = _cold_write(context, name)
+        out[name] = (frame, _cold_read(context, name, frame))
+    return out
+
+
+def cold_body(W, params):
+    use_repo()
+    from minecraft.networking.connection import ConnectionContext
+    context = ConnectionContext(protocol_version=params['version'])
+    exp = params['expected']
+    ops, want = [], []
+    for name, kind in params['pair']:
+        frame, decoded = exp[name]
+        if kind == 'w':
+            ops.append(lambda n=name: _cold_write(context, n))
+            want.append(('ok', frame))
+        else:
+            ops.append(lambda n=name, f=frame: _cold_read(context, n, f))
+            want.append(('ok', (decoded[0], decoded[1])))
+    got = interleave.race(W, ops)
+    again = []
+    for f in ops:
+        try:
+            again.append(('ok', f()))
+        except Exception as e:
+            again.append(('exc', '%s: %s' % (type(e).__name__, e)))
+    viol = []
+    for i, (name, kind) in enumerate(params['pair']):
+        what = '%s %s' % ('write' if kind == 'w' else 'read',
+                          COLD_OPS[name][2])
+        g = got[i] if got[i][0] != 'ok' else ('ok', got[i][1] if kind == 'w'
+                                              else tuple(got[i][1]))
+        a = again[i] if again[i][0] != 'ok' else (
+            'ok', again[i][1] if kind == 'w' else tuple(again[i][1]))
+        w = (want[i][0], want[i][1] if kind == 'w' else tuple(want[i][1]))
+        if g != w:
+            viol.append(('first use, concurrent: %s differs' % what,
+                         'protocol %d: %s as the first use of the class in '
+                         'the process, concurrently with %s, gave %s; a '
+                         'process that does it alone gets %s'
+                         % (params['version'], what,
+                            params['pair'][1 - i][0], str(g)[:300],
+                            str(w)[:300])))
+        elif a != w:
+            viol.append(('after a concurrent first use: %s differs' % what,
+                         'protocol %d: %s gives %s after two threads made '
+                         'the first use concurrently; expected %s'
+                         % (params['version'], what, str(a)[:300],
+                            str(w)[:300])))
+    return {'outcome': tuple(h64(repr(g)) for g in got), 'violations': viol}
+
+
+def cold_factory(params):
+    def scenario(prefix, expect, visited=None, budget=0):
+        return interleave.run(lambda W: cold_body(W, params), prefix, expect,
+                              budget, modules=RACE_MODULES, horizon=400000)
+    scenario.prepare = lambda: interleave.install(RACE_MODULES)
+    return scenario
+
+
+def run_cold(ctx, ex):
+    bound = 2 if ctx.thorough else 1
+    execs = 0
+    for v in (COLD_VERSIONS if ctx.thorough else COLD_VERSIONS[-1:]):
+        expected = explore.in_child(cold_expected, v)
+        expected = dict((k, [e[0], list(e[1])]) for k, e in expected.items())
+        for a, ka, b, kb in COLD_PAIRS:
+            res = ex.explore(ctx, cold_factory,
+                             {'version': v, 'pair': [[a, ka], [b, kb]],
+                              'expected': expected},
+                             bound, label='cold ', cold=True)
+            execs += res.execs
+            ctx.cls('concurrent first use of a packet class')
+    ctx.extra['concurrent_first_use'] = {
+        'versions': list(COLD_VERSIONS), 'pairs': len(COLD_PAIRS),
+        'preemption_bound': bound, 'schedules_executed': execs,
+        'each_execution': 'a fresh fork of a process in which no packet '
+                          'was ever written or read'}
+
+
 def run(ctx):
     use_repo()
+    # (imported before the fork so that every process sees the same class
+    # objects; nothing is written or read here)
+    import minecraft.networking.connection        # noqa: F401
+    import minecraft.networking.packets.clientbound.play   # noqa: F401
+    import minecraft.networking.packets.serverbound.play   # noqa: F401
     ex = explore.Explorer(memo=False)   # forks its workers before anything runs
     try:
+        run_cold(ctx, ex)           # first: the parent is still cold too
         _run(ctx)
         if not ctx.violations:
             run_races(ctx, ex)
@@ -1921,8 +2081,8 @@ def _run(ctx):
 def replay(ctx, case):
     use_repo()
     if 'choices' in case:
-        x = race_factory(case['params'])(list(case['choices']), None, None,
-                                         'replay')
+        fac = cold_factory if 'pair' in case['params'] else race_factory
+        x = fac(case['params'])(list(case['choices']), None, None, 'replay')
         res = x.result or {}
         viol = list(res.get('violations', ()))
         if x.failure is not None:
